@@ -27,6 +27,7 @@ CONSTANTS Clients,      \* client connection ids (positive integers)
           Runtimes,     \* subset of {"threaded", "tokio"}
           MaxReq,       \* requests a client may start on one connection
           Kinds,        \* kinds of request: subset of {"close", "keep", "ws"}
+          SigTwice,     \* BOOLEAN: the signal may be sent a second time
           Dev           \* subset of DevNames
 
 WAKE == 0                \* the wake-up connection made by the run thread
@@ -120,7 +121,7 @@ Sig_Send ==
 \* the signal is sent a second time.  tokio: cancel() is idempotent (nothing changes).  threaded: another message
 \* is put into the channel; once Sig_Recv has taken the first one nobody ever reads the channel again.
 Sig_Again ==
-  /\ sent /\ rt = "threaded" /\ ~chan /\ spc # "recv"
+  /\ SigTwice /\ sent /\ rt = "threaded" /\ ~chan /\ spc # "recv"
   /\ chan' = TRUE
   /\ UNCHANGED <<cfgVars, aVars, spc, sent, flag, kVars, pVars, cs, cVars, hVars>>
 
